@@ -112,7 +112,7 @@ def classify(case, detail):
     for fid, pred in KNOWN.items():
         if pred(case, feats, d, what, missing, extra, detail):
             return fid
-    return _classify_cells(case, detail)
+    return _probe_finding(case, feats, detail) or _classify_cells(case, detail)
 
 
 def _between(core, S, full):
@@ -161,6 +161,17 @@ def _form(sql):
             if kw in up and " AS " not in up.split(kw)[0]:
                 words.append("..." + kw.strip())
     return " ".join(words)
+
+
+PROBE_TAGS = ("nested-setop-paren", "lateral-subquery", "join-on-subquery", "where-quantified-subquery", "where-expression-subquery", "update-merge-subquery",
+              "order-by-subquery")
+
+
+def _probe_finding(case, feats, detail):
+    for tag in PROBE_TAGS:
+        if "probe:" + tag in feats and _lost_only(case, detail, "probe"):
+            return "K-" + tag + "@C01"
+    return None
 
 
 KNOWN = {
@@ -517,6 +528,78 @@ def _style_worker(payload):
     return res
 
 
+def blind_position_probes():
+    """subquery positions outside the skeleton product, as text templates: (finding tag, dialect, sql, full sources, target, core = the sources that do
+    not sit in the probed position).  On the pinned tree every tag is a listed finding (the tables in that position are not reported); a probe whose
+    result is exact is simply a passing case, and any other deviation is a violation"""
+    D = "<default>."
+    P = []
+
+    def add(tag, dialect, sql, full, tgt, core):
+        P.append((tag, dialect, sql, sorted(full), [tgt] if tgt else [], sorted(core)))
+
+    t = D + "tgt"
+    add("nested-setop-paren", "ansi", "INSERT INTO tgt SELECT c1 FROM ta UNION (SELECT c1 FROM tb UNION SELECT c1 FROM tc)", [D + "ta", D + "tb", D + "tc"], t, [D + "ta"])
+    add("nested-setop-paren", "ansi", "CREATE TABLE tgt AS (SELECT c1 FROM ta UNION SELECT c1 FROM tb) UNION ALL SELECT c1 FROM tc", [D + "ta", D + "tb", D + "tc"], t, [D + "tc"])
+    add("nested-setop-paren", "ansi", "SELECT c1 FROM ta EXCEPT (SELECT c1 FROM tb INTERSECT SELECT c1 FROM s1.tc)", [D + "ta", D + "tb", "s1.tc"], None, [D + "ta"])
+    add("nested-setop-paren", "postgres", "INSERT INTO tgt (SELECT c1 FROM ta UNION ALL (SELECT c1 FROM tb UNION ALL SELECT c1 FROM tc))", [D + "ta", D + "tb", D + "tc"], t, [D + "ta"])
+    add("lateral-subquery", "ansi", "INSERT INTO tgt SELECT c1 FROM ta t1 JOIN LATERAL (SELECT c2 FROM tb WHERE tb.k = t1.k) l ON TRUE", [D + "ta", D + "tb"], t, [D + "ta"])
+    add("lateral-subquery", "ansi", "INSERT INTO tgt SELECT c1 FROM ta, LATERAL (SELECT c2 FROM s1.tb WHERE s1.tb.k = ta.k) l", [D + "ta", "s1.tb"], t, [D + "ta"])
+    add("lateral-subquery", "postgres", "INSERT INTO tgt SELECT c1 FROM ta t1 LEFT JOIN LATERAL (SELECT c2 FROM tb WHERE tb.k = t1.k) l ON TRUE", [D + "ta", D + "tb"], t, [D + "ta"])
+    add("join-on-subquery", "ansi", "INSERT INTO tgt SELECT ta.c1 FROM ta JOIN tb ON ta.k = (SELECT max(k) FROM tc)", [D + "ta", D + "tb", D + "tc"], t, [D + "ta", D + "tb"])
+    add("join-on-subquery", "ansi", "INSERT INTO tgt SELECT ta.c1 FROM ta LEFT JOIN tb ON tb.k IN (SELECT k FROM s1.tc)", [D + "ta", D + "tb", "s1.tc"], t, [D + "ta", D + "tb"])
+    add("where-quantified-subquery", "ansi", "INSERT INTO tgt SELECT c1 FROM ta WHERE c1 > ALL (SELECT c1 FROM tb)", [D + "ta", D + "tb"], t, [D + "ta"])
+    add("where-quantified-subquery", "postgres", "INSERT INTO tgt SELECT c1 FROM ta WHERE c1 < ANY (SELECT c1 FROM s1.tc)", [D + "ta", "s1.tc"], t, [D + "ta"])
+    add("where-expression-subquery", "ansi", "INSERT INTO tgt SELECT c1 FROM ta WHERE c1 = coalesce((SELECT max(c1) FROM tb), 0)", [D + "ta", D + "tb"], t, [D + "ta"])
+    add("where-expression-subquery", "ansi", "INSERT INTO tgt SELECT c1 FROM ta WHERE CASE WHEN c1 IN (SELECT c1 FROM tb) THEN 1 ELSE 0 END = 1", [D + "ta", D + "tb"], t, [D + "ta"])
+    add("update-merge-subquery", "ansi", "UPDATE tgt SET c1 = (SELECT max(c1) FROM ta)", [D + "ta"], t, [])
+    add("update-merge-subquery", "ansi", "UPDATE tgt SET c1 = 1 WHERE k IN (SELECT k FROM tb)", [D + "tb"], t, [])
+    add("update-merge-subquery", "ansi", "UPDATE tgt SET c1 = ta.c1 FROM ta WHERE ta.k IN (SELECT k FROM tb)", [D + "ta", D + "tb"], t, [D + "ta"])
+    add("update-merge-subquery", "postgres", "UPDATE tgt SET (c1, c2) = (SELECT c1, c2 FROM ta WHERE ta.k = tgt.k)", [D + "ta"], t, [])
+    add("update-merge-subquery", "ansi", "MERGE INTO tgt USING ta ON tgt.k = ta.k AND ta.k IN (SELECT k FROM tb) WHEN MATCHED THEN UPDATE SET c1 = ta.c1", [D + "ta", D + "tb"], t, [D + "ta"])
+    add("update-merge-subquery", "ansi", "MERGE INTO tgt USING ta ON tgt.k = ta.k WHEN MATCHED THEN UPDATE SET c1 = (SELECT max(c1) FROM tb)", [D + "ta", D + "tb"], t, [D + "ta"])
+    add("order-by-subquery", "ansi", "INSERT INTO tgt SELECT c1 FROM ta ORDER BY (SELECT max(c1) FROM tb)", [D + "ta", D + "tb"], t, [D + "ta"])
+    # positions of the same families that ARE seen (controls: they must stay exact)
+    add("control", "ansi", "INSERT INTO tgt SELECT c1 FROM ta UNION ALL (SELECT c1 FROM tb)", [D + "ta", D + "tb"], t, [D + "ta", D + "tb"])
+    add("control", "ansi", "INSERT INTO tgt SELECT c1 FROM ta WHERE (c1, c2) IN (SELECT c1, c2 FROM tb)", [D + "ta", D + "tb"], t, [D + "ta", D + "tb"])
+    add("control", "ansi", "INSERT INTO tgt SELECT c1 FROM ta WHERE c1 IN (SELECT c1 FROM tb UNION SELECT c1 FROM tc)", [D + "ta", D + "tb", D + "tc"], t, [D + "ta", D + "tb", D + "tc"])
+    add("control", "ansi", "INSERT INTO tgt SELECT c1 FROM ta WHERE NOT (c1 IN (SELECT c1 FROM tb))", [D + "ta", D + "tb"], t, [D + "ta", D + "tb"])
+    add("control", "ansi", "WITH q AS (SELECT c1 FROM ta) SELECT c1 FROM q WHERE c1 IN (WITH r AS (SELECT c1 FROM tb) SELECT c1 FROM r)", [D + "ta", D + "tb"], None, [D + "ta", D + "tb"])
+    add("control", "ansi", "INSERT INTO tgt SELECT c1 FROM (WITH q AS (SELECT c1 FROM ta) SELECT c1 FROM q) d", [D + "ta"], t, [D + "ta"])
+    add("control", "ansi", "INSERT INTO tgt SELECT c1 FROM ((SELECT c1 FROM ta)) d", [D + "ta"], t, [D + "ta"])
+    add("control", "ansi", "INSERT INTO tgt SELECT c1 FROM (SELECT c1 FROM ta) AS d (c1)", [D + "ta"], t, [D + "ta"])
+    add("control", "ansi", "INSERT INTO tgt SELECT c1 FROM (VALUES (1), (2)) AS v (c1)", [], t, [])
+    add("control", "ansi", "INSERT INTO tgt SELECT ta.c1 FROM ta FULL OUTER JOIN tb USING (k) CROSS JOIN tc", [D + "ta", D + "tb", D + "tc"], t, [D + "ta", D + "tb", D + "tc"])
+    add("control", "ansi", "CREATE VIEW tgt AS WITH q AS (SELECT c1 FROM ta), r AS (SELECT c1 FROM q JOIN tb USING (c1)) SELECT * FROM r", [D + "ta", D + "tb"], t, [D + "ta", D + "tb"])
+    return P
+
+
+def _probe_worker(payload):
+    shard, nshards, ctx = payload
+    from vlib import rewrite
+
+    res = runner.Res()
+    for idx, (tag, dialect, sql, full, T, core) in enumerate(blind_position_probes()):
+        if idx % nshards != shard:
+            continue
+        if not rewrite.parses(sql, dialect):
+            res.discard("rejected_by_dialect:" + dialect)
+            continue
+        c = {"sql": sql, "dialect": dialect, "expected": {"S": full, "T": T}, "features": ["probe:" + tag], "cores": {"probe": core}}
+        res.case(sql + "|" + dialect, True, labels=["position_probe", "probe:" + tag], sample=c)
+        d = compare((full, T), actual_tables(sql, dialect))
+        if d is None:
+            continue
+        fid = classify(c, d)
+        if fid and fid in ctx.active:
+            res.known(fid, c)
+        elif os.environ.get("VERIF_COLLECT"):
+            res.known("UNLISTED probe | " + tag + " | " + d["what"], c)
+        elif len(res.violations) < 4:
+            res.violation("position_probe", c, d)
+    return res
+
+
 def _specific_worker(payload):
     shard, nshards, ctx = payload
     from vlib import rewrite
@@ -550,7 +633,7 @@ def _skeleton_worker(payload):
     for idx, (stmt, feats) in enumerate(skeletons(nest_levels)):
         if idx % nshards != shard:
             continue
-        if ctx.quick and len(feats) > 2 and (idx // nshards + ctx.seed) % 6:  # quick: a seeded sixth of the product (all extra kinds)
+        if ctx.quick and len(feats) > 2 and (idx // nshards + ctx.seed) % 8:  # quick: a seeded eighth of the product (all extra kinds)
             continue
         if {"scalar_subquery_select_item", "having_subquery"} & set(feats) and not any(f in ("from:single", "from:comma2") for f in feats):
             continue  # finding probes: two FROM shapes are enough
@@ -586,6 +669,7 @@ def run(ctx):
     nshards = runner.NCPU * 2
     res = runner.merge_all(runner.pmap(_skeleton_worker, [(i, nshards, (0, 1), ctx) for i in range(nshards)]))
     res.merge(runner.merge_all(runner.pmap(_specific_worker, [(i, nshards, ctx) for i in range(nshards)])))
+    res.merge(runner.merge_all(runner.pmap(_probe_worker, [(i, nshards, ctx) for i in range(nshards)])))
     res.merge(runner.merge_all(runner.pmap(_style_worker, [(i, nshards, ctx) for i in range(nshards)])))
     res.extra["skeletons"] = sum(1 for _ in skeletons((0, 1)))
     n = ctx.n(1600, 24000)
